@@ -121,9 +121,6 @@ impl Sx {
     pub fn size(&self) -> usize {
         1 + self.children().iter().map(|(_, c)| c.size()).sum::<usize>()
     }
-    pub fn depth(&self) -> usize {
-        1 + self.children().iter().map(|(_, c)| c.depth()).max().unwrap_or(0)
-    }
 }
 
 /// decode a code-point encoded atom
